@@ -100,6 +100,25 @@ def full_checks(chk, tier, seed):
             inp, opts = meta[cid]
             obj = {"kind": "input", "what": "check.SolutionCheck on a solver-made solution: " + r["checkdiff"][0][:400], "differences": r["checkdiff"][:8],
                    "input": inp, "options": opts, "how": "harness crash checkcheck=1"}
+            # a stop group that the check planned and could not take off again as a whole: the group un-plan of finding N2 (members
+            # one by one, a member's rejection ignored) - only when what is left on / missing from the routes are group members
+            import re
+            members = {x for g in (inp.get("stop_groups") or []) for x in g}
+            altered = [d_ for d_ in r["checkdiff"] if "altered the checked solution" in d_]
+            if members and altered and len(altered) == len(r["checkdiff"]):
+                only_members = True
+                for d_ in altered:
+                    m_ = re.search(r"before \{(.*)\} after \{(.*)\}", d_)
+                    if not m_ or not m_.group(1).startswith("vehicle "):
+                        only_members = False
+                        break
+                    ids = [set(re.findall(r"([\w-]+)\[a", part)) for part in m_.groups()]
+                    delta = ids[0] ^ ids[1]
+                    if not delta or not delta <= members:
+                        only_members = False
+                        break
+                if only_members:
+                    obj["finding_shape"] = {"kind": "nested", "op": "unplanr", "result": "done", "group": True, "oracle": "C18", "detail": "full"}
             if chk.match_known(obj) is None:
                 nd += 1
             chk.violation(obj)
